@@ -26,11 +26,16 @@ type BGVSpec struct {
 	LogN, NQ, QBits, NP, PBits int
 	T                          uint64
 	Q0Bits                     int // 0: like the others; otherwise the size of the first prime of Q
+	BigAt                      int // index in Q at which the Q0Bits-sized prime is placed (0: first)
 }
 
 func (s BGVSpec) String() string {
 	if s.Q0Bits > 0 {
-		return fmt.Sprintf("bgv-N%d-q%d+%dx%d-p%dx%d-t%d", s.LogN, s.Q0Bits, s.NQ-1, s.QBits, s.NP, s.PBits, s.T)
+		at := ""
+		if s.BigAt > 0 {
+			at = fmt.Sprintf("-bigat%d", s.BigAt)
+		}
+		return fmt.Sprintf("bgv-N%d-q%d+%dx%d-p%dx%d-t%d%s", s.LogN, s.Q0Bits, s.NQ-1, s.QBits, s.NP, s.PBits, s.T, at)
 	}
 	return fmt.Sprintf("bgv-N%d-q%dx%d-p%dx%d-t%d", s.LogN, s.NQ, s.QBits, s.NP, s.PBits, s.T)
 }
@@ -52,6 +57,7 @@ func NewBGV(s BGVSpec) *BGV {
 	if s.Q0Bits > 0 {
 		lit.Q = append(uni.Primes(s.LogN, s.Q0Bits, 1), distinctFrom(uni.Primes(s.LogN, s.QBits, s.NQ+1), uni.Primes(s.LogN, s.Q0Bits, 1), s.NQ-1)...)
 		lit.P = distinctFrom(uni.Primes(s.LogN, s.PBits, s.NP+s.NQ+1), lit.Q, s.NP)
+		lit.Q[0], lit.Q[s.BigAt] = lit.Q[s.BigAt], lit.Q[0]
 	} else if s.QBits == s.PBits {
 		all := uni.Primes(s.LogN, s.QBits, s.NQ+s.NP)
 		// the larger primes go to P (key-switching noise is divided by P)
@@ -106,12 +112,16 @@ func (w *BGV) Decode(ct *rlwe.Ciphertext, scale uint64) []uint64 {
 type CKKSSpec struct {
 	LogN, NQ, Q0Bits, QBits, NP, PBits, LogScale int
 	CI                                           bool // conjugate-invariant ring (real slots, N of them)
+	BigAt                                        int  // index in Q at which the Q0Bits-sized prime is placed (0: first)
 }
 
 func (s CKKSSpec) String() string {
 	r := ""
 	if s.CI {
 		r = "-ci"
+	}
+	if s.BigAt > 0 {
+		r += fmt.Sprintf("-bigat%d", s.BigAt)
 	}
 	return fmt.Sprintf("ckks-N%d-q%d+%dx%d-p%dx%d-s%d%s", s.LogN, s.Q0Bits, s.NQ-1, s.QBits, s.NP, s.PBits, s.LogScale, r)
 }
@@ -134,6 +144,7 @@ func NewCKKS(s CKKSSpec) *CKKS {
 	// all primes ≡ 1 mod 2^(LogN+2): valid for both ring types; the three size classes must not collide
 	lit.Q = append(uni.Primes(s.LogN, s.Q0Bits, 1), distinctFrom(uni.Primes(s.LogN, s.QBits, s.NQ+1), uni.Primes(s.LogN, s.Q0Bits, 1), s.NQ-1)...)
 	lit.P = distinctFrom(uni.Primes(s.LogN, s.PBits, s.NP+s.NQ+1), lit.Q, s.NP)
+	lit.Q[0], lit.Q[s.BigAt] = lit.Q[s.BigAt], lit.Q[0]
 	p, err := ckks.NewParametersFromLiteral(lit)
 	if err != nil {
 		panic(fmt.Sprintf("circ.NewCKKS(%v): %v", s, err))
